@@ -10,7 +10,7 @@ impl Scenario for C02 {
         "C02"
     }
     fn rule(&self) -> String {
-        "Seeded sessions dominated by publishes: body lengths biased to {0,1,P-1,P,P+1,2P-1,2P,2P+1,3P,3P+1} (P = negotiated frame_max-8) plus random, 9 client/server frame_max pairs (incl. 0=unlimited, 4096, 4097, 8192, 131072), 5 property sets incl. all 14 properties and nested tables, names 1..255 bytes, all flag combinations, 1-3 threads and channels with other operations interleaved, write fragmentation on. Oracle = independent decoder at the peer. Non-trivial = the run checked >=1 publish whose body length sits on a splitting boundary (0, 1, multiple of P, or > P); distinct = hash of (frame_max, multiset of (body length, property set, flags)). The schedule dimension only adds fragmentation and a second interleaving channel here.".to_string()
+        "Seeded sessions dominated by publishes: body lengths biased to {0,1,P-1,P,P+1,2P-1,2P,2P+1,3P,3P+1} (P = negotiated frame_max-8) plus random, 9 client/server frame_max pairs (incl. 0=unlimited, 4096, 4097, 8192, 131072), 5 property sets incl. all 14 properties and nested tables, names 1..255 bytes, all flag combinations, 1-3 threads and channels with other operations interleaved, write fragmentation on. Oracle = independent decoder at the peer. Non-trivial = the run checked >=1 publish whose body length sits on a splitting boundary (0, 1, multiple of P, or > P); distinct = hash of (frame_max, multiset of (body length, property set, flags)). The schedule dimension only adds fragmentation and a second interleaving channel here. A third of the sessions also attach 1-3 consumers to the publishing channel which the server cancels (nowait=false) at random times while publishes are under way, so that frames the I/O thread writes on its own account (Basic.CancelOk) compete with the publish's frames for the channel's sequence.".to_string()
     }
     fn assumptions(&self) -> Vec<String> {
         vec!["amq-protocol codec trusted at the peer".into(), "frame_max as negotiated by the simulated broker's Tune and the client option".into()]
@@ -41,11 +41,41 @@ impl Scenario for C02 {
                 }
             }
         }
+        // a third of the sessions: the publishing channel also carries consumers which the *server* cancels
+        // (nowait = false) while publishes are under way: the I/O thread's own CancelOk must not land
+        // inside a publish's frames on that channel
+        let mut server_cancels = 0u64;
+        if cs.choose("c02_server_cancels", 3) == 0 {
+            let mut next_id = 1u16;
+            for t in gen.plan.threads.iter_mut() {
+                let base = next_id;
+                next_id += t.chan_ids.len() as u16;
+                let k = 1 + cs.choose("c02_consumers", 3);
+                for j in 0..k {
+                    t.ops.insert(0, (0, crate::client::Op::Consume { queue: format!("cq{}", j), no_local: false, no_ack: true, exclusive: false, args: 0, via_queue: false }));
+                    let at = 50_000 + cs.choose("c02_cancel_at_us", 6_000) as u64 * 1000;
+                    gen.broker.script.push((crate::broker::Trigger::AtTime(at), crate::broker::Action::CancelConsumer { ch: base, nth_consumer: j, nowait: false }));
+                    server_cancels += 1;
+                }
+            }
+            gen.broker.deliveries_min = 0;
+            gen.broker.deliveries_max = 1;
+        }
         let (res, world) = run_generated(&gen, cs, text, |_| {});
         let mut rep = CaseReport::default();
+        rep.count("c02.server_cancels_scripted", server_cancels);
         fill_common(&mut rep, &res, &world);
         rep.sample = plan_summary(&gen);
         if let Some((sig, detail)) = hang_sig(&res.run.outcome) {
+            // a stream that stopped being AMQP makes the broker fall silent: if an accepted publish is not
+            // whole on the wire before that point it is C02's concern, otherwise C01's
+            let n = world.net.lock().unwrap();
+            if crate::oracles::decode_c2s(&n.c2s).is_err() {
+                publish_oracle(&mut rep, &n.c2s, &res.hist, gen.frame_max);
+                if !rep.violations.is_empty() {
+                    return rep;
+                }
+            }
             rep.inconclusive = Some(format!("hang ({}): not C02's oracle: {}", sig, detail));
             return rep;
         }
